@@ -131,6 +131,52 @@ def ell_case(mon, rng, label, order, m):
             mon.sample({**case, "oracle_margin": [lo, hi], "answer": bool(ans)})
 
 
+def forced_fallback_channel(mon, rng, n):
+    """INFORMATIONAL ONLY (never a violation): the first solve() of each problem is made to raise SolverError so the
+    `except SolverError: prob.solve(solver=SCS)` path and its status mapping are exercised; wrong decisions are counted
+    per region-scale decade.  The fault is synthetic; the property quantifies over inputs, not fault sequences."""
+    import cvxpy as cp
+
+    orig = cp.Problem.solve
+    state = {"armed": False}
+
+    def solve(self, *a, **k):
+        if state["armed"] and "solver" not in k:
+            state["armed"] = False
+            raise cp.error.SolverError("injected by the monitor")
+        return orig(self, *a, **k)
+
+    cp.Problem.solve = solve
+    try:
+        for _ in range(n):
+            m = 2
+            label, order = gen.random_order(rng, m, families=["theta", "orthant", "random"])
+            W = order.ordering_cone.W
+            ell = rng.random() < 0.5
+            if ell:
+                c1, S1, a1, c2, S2, a2, mode, scale = gen.ell_pair(rng, m)
+                lo, hi = G.ell_covered_margin(W, c1, S1, a1, c2, S2, a2, 0.0)
+                r1, r2 = P.mk_ell(c1, S1, a1), P.mk_ell(c2, S2, a2)
+            else:
+                lo1, hi1, lo2, hi2, mode, scale = gen.rect_pair(rng, m)
+                lo, hi = G.rect_covered_margin(W, lo1, hi1, lo2, hi2, 0.0)
+                r1, r2 = P.mk_rect(lo1, hi1), P.mk_rect(lo2, hi2)
+            state["armed"] = True
+            try:
+                ans = call_real(order, r1, r2, 0, "classmethod")
+            except Exception:
+                mon.count("scs_forced_crash")
+                state["armed"] = False
+                continue
+            dec = int(np.floor(np.log10(scale)))
+            mon.count("scs_forced_events")
+            if abs(lo) > 1e-2 * scale and (lo > 0) != bool(ans) and (hi > 0) == (lo > 0):
+                mon.count("scs_forced_wrong_at_rel_margin_gt_1e-2")
+                mon.count(f"scs_forced_wrong_scale_1e{dec}")
+    finally:
+        cp.Problem.solve = orig
+
+
 def shard(mon, tier, rng, shard_no, nshards):
     P.install_solver_logger()
     n = max(4, N[tier] // nshards)
@@ -143,6 +189,8 @@ def shard(mon, tier, rng, shard_no, nshards):
             m = int(rng.choice([2, 2, 3]))
             label, order = gen.random_order(rng, m)
             ell_case(mon, rng, label, order, m)
+    if tier == "thorough":
+        forced_fallback_channel(mon, rng, 60)
     mon.notes["solver_status_seen"] = dict(P.SOLVER_STATUS)
     mon.count("natural_solver_errors", P.NATURAL_SOLVER_ERRORS[0])
 
